@@ -722,7 +722,8 @@ pub fn write_evidence(
         "wall_s": wall_s,
         "violations": verdict.violations,
     });
-    let dir = verif_root().join("evidence");
+    // (the sensitivity tools, which run the checks against deliberately broken trees, point this elsewhere)
+    let dir = std::env::var("VERIF_EVIDENCE_DIR").map(std::path::PathBuf::from).unwrap_or_else(|_| verif_root().join("evidence"));
     let _ = std::fs::create_dir_all(&dir);
     let path = dir.join(format!("{}.json", property));
     std::fs::write(&path, serde_json::to_string_pretty(&ev).unwrap()).expect("write evidence");
